@@ -389,6 +389,133 @@ def _where(ops, k):
     return 'before-%s-%s' % (op[0], name.replace('Data.fs', 'D'))
 
 
+# ------------------------------------------------ packs that cannot complete
+
+FAULT_HIST = [('new', 1), ('mod', 1), ('new', 2), ('mod', 1), ('mod', 2)]
+
+
+def pack_fault_task(variant):
+    """One injected failure (ENOSPC) at the n-th file-system operation of a
+    pack, for every n; or a stale Data.fs.old that cannot be removed.  The
+    pack fails or completes; if it fails the database is usable and
+    unchanged: same answers, the next commit and the next pack go through
+    (no lock left behind, no 'already packing'), the file reopens."""
+    from mc import battery, sched, world
+    from mc.battery import Exc, call, p64
+    from ZODB.serialize import referencesf
+    env.install()
+    res = schedx._new_res()
+    seen = set()
+
+    def bad(c, sg, wit, det):
+        fs = 'C08.%s:%s' % (c, sg)
+        if fs not in seen:
+            seen.add(fs)
+            res['violations'].append(('C08.' + c, fs, dict(
+                packfault=wit), det, 1))
+    twin = [None]
+
+    def packed_twin():
+        env.reset_globals()
+        sched.install_locks()
+        t = world.World('F', record=True)
+        sp = world.Spec(['new', 'mod'], oids=(1, 2, 3), classes={})
+        try:
+            for op in FAULT_HIST:
+                t.apply(op, sp)
+            env.CLOCK.now += 1
+            t.storage.pack(env.CLOCK.now, referencesf, gc=False)
+            return battery.observe(t.storage, t.model.oids(),
+                                   t.model.tids(), 'F', iter_level=0)
+        finally:
+            t.close()
+    twin[0] = packed_twin()
+    n = 0
+    while n < 400:
+        env.reset_globals()
+        sched.install_locks()
+        w = world.World('F', record=True)
+        spec = world.Spec(['new', 'mod'], oids=(1, 2, 3), classes={})
+        try:
+            for op in FAULT_HIST:
+                w.apply(op, spec)
+            m = w.model
+            s = w.storage
+            pre = battery.observe(s, m.oids(), m.tids(), 'F', iter_level=0)
+            env.CLOCK.now += 1
+            wit = dict(variant=variant, n=n)
+            if variant == 'stale-old':
+                # a leftover of an earlier pack that cannot be removed
+                os.mkdir(w.path + '.old')
+                r = call(s.pack, env.CLOCK.now, referencesf, gc=False)
+                os.rmdir(w.path + '.old')
+                inj = ('stale-old',)
+            else:
+                iolog.LOG.arm(n, 0)
+                r = call(s.pack, env.CLOCK.now, referencesf, gc=False)
+                inj = iolog.LOG.injected
+                iolog.LOG.disarm()
+                if inj is None:
+                    break           # past the last operation of a pack
+            res['cov']['traces_validated_against_impl'] += 1
+            res['cov']['states'] += 1
+            res['cov']['transitions'] += len(FAULT_HIST) + 1
+            res['cov']['evaluations'] += 1
+            res['cov']['distinct_nontrivial'] += 1
+            label = 'pack-fault:%s:%s' % (inj[0], 'failed' if isinstance(
+                r, Exc) else 'completed')
+            res['outcomes'][label] = res['outcomes'].get(label, 0) + 1
+            det = dict(injected=repr(inj)[:160], result=repr(r)[:120])
+            if isinstance(r, Exc):
+                post = call(battery.observe, s, m.oids(), m.tids(), 'F',
+                            iter_level=0)
+                if isinstance(post, Exc):
+                    bad('failed', 'unusable:%s' % post.name, wit, det)
+                elif post != pre:
+                    # a pack that raises after it has swapped the files
+                    # (removing .old, saving the index) has completed: it
+                    # must then be the packed database
+                    if post == twin[0]:
+                        res['outcomes'][label + ':after-completion'] = 1
+                    else:
+                        q = [k for k in pre if pre[k] != post.get(k)][0]
+                        bad('failed', 'changed:%s' % q[0], wit, dict(
+                            det, query=repr(q)))
+            # usable: the next commit, the next pack, a reopen
+            try:
+                out = w.apply(('mod', 1), spec)
+                if out != 'commit' or w.violations:
+                    bad('failed', 'next-commit:%s' % out, wit, dict(
+                        det, step=repr(w.violations[:1])[:200]))
+                else:
+                    env.CLOCK.now += 1
+                    r2 = call(s.pack, env.CLOCK.now, referencesf, gc=False)
+                    if isinstance(r2, Exc):
+                        bad('failed', 'next-pack:%s' % r2.name, wit, dict(
+                            det, got=repr(r2)[:160]))
+                    w.storage.close()
+                    r3 = call(w.open)
+                    if isinstance(r3, Exc):
+                        bad('failed', 'reopen:%s' % r3.name, wit, det)
+                    else:
+                        cur = {o: call(w.storage.load, o) for o in m.oids()}
+                        want = {o: m.load(o) for o in m.oids()}
+                        if any(isinstance(cur[o], Exc)
+                               or tuple(cur[o]) != tuple(want[o])
+                               for o in m.oids()):
+                            bad('failed', 'reopened-state', wit, det)
+            except sched.DeadlockError as e:
+                bad('failed', 'lock-left-behind', wit, dict(
+                    det, error=str(e)[:160]))
+        finally:
+            iolog.LOG.disarm()
+            w.close()
+        if variant == 'stale-old':
+            break
+        n += 1
+    return res
+
+
 def run(rep, tier, seed, workers):
     bound = 2 if tier == 'quick' else 3
     rep.rule = (
@@ -402,7 +529,11 @@ def run(rep, tier, seed, workers):
         'for every schedule of packer+writer (bound 1) and the sequential '
         'pack, every op boundary after the pack started is rebuilt as a disk '
         'image and reopened: nothing invented, nothing at/after T lost, '
-        'every acknowledged commit present')
+        'every acknowledged commit present; faults: one ENOSPC at the n-th '
+        'file-system operation of a sequential pack for every n, and a '
+        'stale Data.fs.old that cannot be removed: the pack fails or '
+        'completes, a failed one leaves the same answers, the next commit, '
+        'the next pack and a reopen work')
     plan = []
     for name in HARNESSES:
         three = len(HARNESSES[name]) == 3
@@ -416,6 +547,9 @@ def run(rep, tier, seed, workers):
                      1 if tier == 'quick' else 2))
         rep.bounds['%s line-level preemptions' % name] = plan[-1][1]
     schedx.explore_many(rep, MOD, plan, workers, seed)
+    from mc import par
+    par.run_tasks([(MOD, 'pack_fault_task', (v,))
+                   for v in ('fault', 'stale-old')], workers, rep, seed)
     rep.cov['distinct_nontrivial'] = len(rep.outcomes)
     rep.assumptions = [
         'crash model: prefix of the issued file-system operations in issue '
@@ -425,7 +559,11 @@ def run(rep, tier, seed, workers):
 
 
 def replay(w):
-    viol = schedx.replay(MOD, w['witness'])
+    if 'packfault' in w['witness']:
+        viol = pack_fault_task(w['witness']['packfault']['variant'])[
+            'violations']
+    else:
+        viol = schedx.replay(MOD, w['witness'])
     for v in viol:
         print(v[1], v[3])
     return w['signature'] not in {v[1] for v in viol}
